@@ -877,7 +877,7 @@ def free_port_base(rng):
         ok = True
         socks = []
         try:
-            for p in (base, base + 1, base + 2):
+            for p in range(base, base + 8):
                 s = socket.socket(socket.AF_INET, socket.SOCK_DGRAM)
                 socks.append(s)
                 s.bind(('127.0.0.1', p))
@@ -949,59 +949,99 @@ def corr_rt(ctx, c):
                 'SystemClock thread; invoked %s, the next message then invokes %s (%s)' % (bx['log'], abx['log'], abx['raised']))
         c.notes.append(text)
         c.known_demonstrated.append(('C18:callback-baseexception-kills-dispatch', text))
-    # (ii)
-    items = []
-    for h, o in zip(hists, res['histories']):
-        hk = hist_kind(h)
-        exp = []
-        for op, r in zip(h, o):
-            lg = r['log']
-            if op[0] == 'create' and op[1] == '' and lg == ['OPERROR:IndexError']:
-                lg = []                                   # path[0] on '' : refused, as the model says
-            lg = [x if isinstance(x, str) or x[7] == CAP[hk['shapes'].get(x[1], 'full')] else
-                  'ARITY: %s callable received %d of (msg, time, addr, port), it takes %d' % (hk['shapes'].get(x[1]), x[7], CAP[hk['shapes'].get(x[1], 'full')])
-                  for x in lg]
-            exp.append('(([%s] : list (inv * nat)), %s)' % ('; '.join(inv_term(x) for x in lg), state_term(r['state'])))
-        calm = not (hk['raise'] or hk['predx'])
-        items.append('([%s], ([%s] : list nat), %s, [%s])' % ('; '.join(op_term(op, ports) for op in h),
-                                                                '; '.join('%d%%nat' % t for t in raises_of(h)), cbool(calm), '; '.join(exp)))
-        for op in h:
-            c.count('history-op:' + op[0])
-        c.count('history-kind:' + ('share' if hk['share'] else 'raise' if (hk['raise'] or hk['predx']) else 'plain'))
-        ninv = sum(len([x for x in r['log'] if not isinstance(x, str)]) for r in o)
-        c.count('history-invocations', ninv)
-        if ninv >= 1:
-            c.nontriv(('hist', json.dumps(h)))
-    body = 'Eval vm_compute in bad_idx hist_agree cases.'
-    bad, errs = fw.check_shards(ctx, 'hist', RT_HEADER, items, body, shard=12)
-    for e in errs:
-        c.failures.append(Failure('correspondence', 'coq evaluation of responder histories failed: ' + e))
-    shown = 0
-    for i in sorted(bad, key=lambda i: len(hists[i])):
-        share = hist_kind(hists[i])['share']
-        if share and shared_defect:
-            c.count('history-mismatch-explained-by:C18:shared-function-replace-order')
-            continue
-        if kw_defect and hist_kind(hists[i])['kw']:
-            c.count('history-mismatch-explained-by:C18:callable-keyword-only-parameters')
-            continue
-        mpaths = set((op[1] if op[1].startswith('/') else '/' + op[1]) for op in hists[i] if op[0] == 'create' and op[2] and op[1])
-        if order_defect and len(mpaths) >= 2:
-            c.count('history-mismatch-explained-by:C18:matching_order_grouped_by_path')
-            continue
-        if shown >= 4:
+    def check_histories(hists, res, ports, name):
+        # (ii)
+        items = []
+        for h, o in zip(hists, res['histories']):
+            hk = hist_kind(h)
+            exp = []
+            for op, r in zip(h, o):
+                lg = r['log']
+                if op[0] == 'create' and op[1] == '' and lg == ['OPERROR:IndexError']:
+                    lg = []                                   # path[0] on '' : refused, as the model says
+                lg = [x if isinstance(x, str) or x[7] == CAP[hk['shapes'].get(x[1], 'full')] else
+                      'ARITY: %s callable received %d of (msg, time, addr, port), it takes %d' % (hk['shapes'].get(x[1]), x[7], CAP[hk['shapes'].get(x[1], 'full')])
+                      for x in lg]
+                exp.append('(([%s] : list (inv * nat)), %s)' % ('; '.join(inv_term(x) for x in lg), state_term(r['state'])))
+            calm = not (hk['raise'] or hk['predx'])
+            items.append('([%s], ([%s] : list nat), %s, [%s])' % ('; '.join(op_term(op, ports) for op in h),
+                                                                    '; '.join('%d%%nat' % t for t in raises_of(h)), cbool(calm), '; '.join(exp)))
+            for op in h:
+                c.count('history-op:' + op[0])
+            c.count('history-kind:' + ('share' if hk['share'] else 'raise' if (hk['raise'] or hk['predx']) else 'plain'))
+            ninv = sum(len([x for x in r['log'] if not isinstance(x, str)]) for r in o)
+            c.count('history-invocations', ninv)
+            if ninv >= 1:
+                c.nontriv(('hist', json.dumps(h)))
+        body = 'Eval vm_compute in bad_idx hist_agree cases.'
+        bad, errs = fw.check_shards(ctx, name, RT_HEADER, items, body, shard=12)
+        for e in errs:
+            c.failures.append(Failure('correspondence', 'coq evaluation of responder histories failed: ' + e))
+        shown = 0
+        for i in sorted(bad, key=lambda i: len(hists[i])):
+            share = hist_kind(hists[i])['share']
+            if share and shared_defect:
+                c.count('history-mismatch-explained-by:C18:shared-function-replace-order')
+                continue
+            if kw_defect and hist_kind(hists[i])['kw']:
+                c.count('history-mismatch-explained-by:C18:callable-keyword-only-parameters')
+                continue
+            mpaths = set((op[1] if op[1].startswith('/') else '/' + op[1]) for op in hists[i] if op[0] == 'create' and op[2] and op[1])
+            if order_defect and len(mpaths) >= 2:
+                c.count('history-mismatch-explained-by:C18:matching_order_grouped_by_path')
+                continue
+            if shown >= 4:
+                break
+            shown += 1
+            c.failures.append(Failure('correspondence', 'responder history: model and implementation disagree (invocations, dispatcher tables, enabled '
+                                      'flags or CmdPeriod registry); ops=%s impl=%s' % (json.dumps(hists[i]), json.dumps(
+                                          [{'log': [x if isinstance(x, str) else x[:2] + [x[7]] for x in r['log']], 'state': r['state']} for r in res['histories'][i]])),
+                                      replay={'kind': 'history', 'ops': hists[i], 'impl': res['histories'][i], 'ports': ports}))
+        left = [(i, l) for i, l in enumerate(res['leftover']) if l != [0, 0]]
+        if left:
+            i, l = left[0]
+            c.failures.append(Failure('correspondence', 'after free() of every responder of a history the dispatchers still hold %s extra paths '
+                                      '(exact, matching): ops=%s' % (l, json.dumps(hists[i])), found_input=True, theorem='disabled_freed_oneshot_never',
+                                      replay={'kind': 'history', 'ops': hists[i], 'impl': res['histories'][i], 'ports': ports, 'leftover': l}))
+    def check_binding(r, first, busy):
+        """two sites: the port an interface REPORTS (handed to every responder, NetAddr.lang_port) vs the port its socket is bound to"""
+        rep = r['reported']
+        if rep['iface_ports'] != r['ports'] or rep['lang_port'] != r['ports'][0] or r['ports'][0] != first + busy or \
+                sorted(r['ports']) != [p for p in rep['endpoints'] if p in r['ports']] or (busy and r['busy_open'] != 'OSError'):
+            c.failures.append(Failure('correspondence', 'library range starting at %d with its first %d port(s) in use: sockets bound to %s, the interfaces '
+                                      'report %s, NetAddr.lang_port() %s, registered endpoints %s, opening a busy extra port: %s -- every responder is handed '
+                                      'the reported port and recv_port filters compare with it' % (first, busy, r['ports'], rep['iface_ports'], rep['lang_port'],
+                                                                                                   rep['endpoints'], r['busy_open']),
+                                      found_input=True, theorem='dispatch_exact (port passed unchanged)',
+                                      replay={'kind': 'binding', 'first_port': first, 'busy': busy, 'bound': r['ports'], 'reported': rep,
+                                              'how': 'hold UDP sockets on the first ports of LIB_PORT..LIB_PORT+LIB_PORT_RANGE, then sc3.init("rt")'}))
+
+    check_histories(hists, res, ports, 'hist')
+    check_binding(res, base, 0)
+    # the same receive path under NON-DEFAULT BINDING: the first two ports of the library's range are busy, the interface
+    # falls back to a later one; responders, filters and the model use the port the sockets are really bound to
+    base2 = free_port_base(rng)
+    hists2 = FIXED_HISTORIES[:3] + matrix_histories(rng)[:5] + [gen_history(rng, 10) for _ in range(ctx.n(12, 200))]
+    udp2 = [dc for dc in dcases if dc['kind'] == 'valid'][:3]
+    res2 = ctx.impl('c18_rt', {'port': base2, 'busy': 2, 'histories': hists2, 'dgrams': dcases[:12], 'udp': udp2, 'watchdog': 0.3},
+                    mode='rt', timeout=ctx.n(120, 500))
+    check_histories(hists2, res2, res2['ports'], 'hist_busy')
+    check_binding(res2, base2, 2)
+    for dc, o in zip(dcases[:12], res2['dgrams']):
+        if o['hang'] or o['raised'] or not o['alive']:
+            c.failures.append(Failure('correspondence', 'busy-port configuration: datagram %s: hang=%s raised=%s; the following valid datagram was delivered '
+                                      'with the right sender and the port it arrived on: %s' % (dc['hex'], o['hang'], o['raised'], o['alive']),
+                                      replay={'kind': 'dgram', 'case': dc, 'impl': o, 'busy': 2}))
             break
-        shown += 1
-        c.failures.append(Failure('correspondence', 'responder history: model and implementation disagree (invocations, dispatcher tables, enabled '
-                                  'flags or CmdPeriod registry); ops=%s impl=%s' % (json.dumps(hists[i]), json.dumps(
-                                      [{'log': [x if isinstance(x, str) else x[:2] + [x[7]] for x in r['log']], 'state': r['state']} for r in res['histories'][i]])),
-                                  replay={'kind': 'history', 'ops': hists[i], 'impl': res['histories'][i], 'ports': ports}))
-    left = [(i, l) for i, l in enumerate(res['leftover']) if l != [0, 0]]
-    if left:
-        i, l = left[0]
-        c.failures.append(Failure('correspondence', 'after free() of every responder of a history the dispatchers still hold %s extra paths '
-                                  '(exact, matching): ops=%s' % (l, json.dumps(hists[i])), found_input=True, theorem='disabled_freed_oneshot_never',
-                                  replay={'kind': 'history', 'ops': hists[i], 'impl': res['histories'][i], 'ports': ports, 'leftover': l}))
+    for dc, o in zip(udp2, res2['udp']):
+        if o.get('skipped'):
+            continue
+        if not o['alive'] or any(x[3] != res2['ports'][0] for x in o['out']):
+            c.failures.append(Failure('correspondence', 'busy-port configuration, UDP loopback to the port the socket is bound to (%d): receiver alive=%s, '
+                                      'messages delivered with ports %s' % (res2['ports'][0], o['alive'], [x[3] for x in o['out']]), found_input=True,
+                                      theorem='dispatch_exact (port passed unchanged)', replay={'kind': 'udp', 'case': dc, 'impl': o, 'busy': 2}))
+            break
+    c.count('busy-port-histories', len(hists2))
     c.count('cross-dispatcher-order:' + '>'.join(res.get('order', [])))
     c.notes.append('cross-dispatcher order observed for one message (exact vs matching dispatcher, both live in a set): %s' % res.get('order'))
     # (iii)
